@@ -44,6 +44,8 @@ struct c16_probe {
     unsigned n_ready, n_dead, n_acquired, n_lost, n_fatal, n_error, n_new_flow_def,
              n_need_output, n_source_end, n_warn, n_other;
     /* order of announcements (C04): the first event that is not a log must be READY; nothing of any kind after DEAD */
+    struct upipe *lazy_output;      /* when set: the output is plumbed from the NEED_OUTPUT event, as applications that build pipelines lazily do */
+    unsigned n_lazy_plumbed;
     bool seen_nonlog, first_nonlog_not_ready;
     unsigned n_after_dead;
     int first_after_dead;
@@ -87,7 +89,14 @@ static int c16_probe_catch(struct uprobe *uprobe, struct upipe *upipe, int event
         if (p->render) vp_render(p->rep, "      [%s%d] ERROR event\n", p->name, p->id);
         return UBASE_ERR_NONE;
     case UPROBE_NEW_FLOW_DEF: p->n_new_flow_def++; return UBASE_ERR_NONE;
-    case UPROBE_NEED_OUTPUT: p->n_need_output++; return UBASE_ERR_UNHANDLED;
+    case UPROBE_NEED_OUTPUT:
+        p->n_need_output++;
+        if (p->lazy_output != NULL && upipe != NULL) {
+            p->n_lazy_plumbed++;
+            if (p->render) vp_render(p->rep, "      [%s%d] need_output: the application connects the sink now\n", p->name, p->id);
+            return upipe_set_output(upipe, p->lazy_output);
+        }
+        return UBASE_ERR_UNHANDLED;
     case UPROBE_SOURCE_END: p->n_source_end++; return UBASE_ERR_NONE;
     default: p->n_other++; return UBASE_ERR_UNHANDLED;
     }
